@@ -1,8 +1,10 @@
 /-
 C03 — every produced image satisfies the on-disk invariants other readers rely on.
 
-Property theorems about the models of the writer's pieces (`Sqfs/Model/{DirWriter,MetaWriter,IdTable}.lean`);
-each quantifies over *all* inputs (entry lists, byte streams, codecs, id sequences).  The validator that
+Property theorems about the models of the writer's pieces
+(`Sqfs/Model/{DirWriter,MetaWriter,IdTable,Finish,Numbering,C03FsDir}.lean`); each quantifies over *all* inputs
+(entry lists, byte streams, codecs, meta writer states, id sequences, name sequences).  Every model function named in
+a theorem is run against the real C function on every invocation of the check (harness/h_c03.c, h_c03n.c).  The validator that
 states the invariants on whole images (`Sqfs/Model/ImageValidate.lean`) is executable and runs on every image
 the check produces; the full statement `validate (serialize t c) = []` for a model of the whole writer is
 **not** proved — what is proved are the invariants each piece establishes (see docs/design/C03.md).
@@ -12,6 +14,8 @@ import Sqfs.Proofs.MetaWriter
 import Sqfs.Proofs.IdTable
 import Sqfs.Proofs.Finish
 import Sqfs.Proofs.Numbering
+import Sqfs.Proofs.C03FsDir
+import Sqfs.Proofs.C03Inode
 namespace Sqfs.C03
 open Sqfs.Consts
 
@@ -36,22 +40,23 @@ theorem conseq_count_ok (offset : Nat) (head : DEnt) (rest : List DEnt) :
   conseqCount_spec offset head rest
 
 /--
-`sqfs_dir_writer_end`, for every entry list and every starting position of the meta writer: the emitted runs,
-concatenated, are exactly the entries in order (nothing lost, duplicated or reordered); every header is followed
-by 1..256 entries that share the header's inode block, and for each of them the 16-bit delta field, read back as
-s16 and added to the header's inode number in 32-bit arithmetic, gives the entry's inode number.
+`sqfs_dir_writer_end`, for every entry list, every codec and every state of the meta writer it appends to: the
+emitted runs, concatenated, are exactly the entries in order (nothing lost, duplicated or reordered); every header is
+followed by 1..256 entries that share the header's inode block, and for each of them the 16-bit delta field, read back
+as s16 and added to the header's inode number in 32-bit arithmetic, gives the entry's inode number.
 -/
-theorem dir_end_headers_ok (blkCost blk off : Nat) (ents : List DEnt) (hnum : ∀ e ∈ ents, e.inodeNum < 4294967296) :
-    ((dirEnd blkCost blk off ents).map (·.ents)).flatten = ents ∧
-    ∀ r ∈ dirEnd blkCost blk off ents,
+theorem dir_end_headers_ok (cmp : MetaWriter.Codec) (st : MetaWriter.St) (ents : List DEnt)
+    (hnum : ∀ e ∈ ents, e.inodeNum < 4294967296) :
+    ((dirEndM cmp st ents).1.map (·.ents)).flatten = ents ∧
+    ∀ r ∈ (dirEndM cmp st ents).1,
       1 ≤ r.ents.length ∧ r.ents.length ≤ 256 ∧
       ∀ e ∈ r.ents, (e.inodeRef >>> 16) % 4294967296 = r.startBlock ∧
         ((r.inodeNumber : Int) + (let d16 := (e.inodeNum + 4294967296 - r.inodeNumber % 4294967296) % 65536
                                    if d16 < 32768 then (d16 : Int) else (d16 : Int) - 65536)) % 4294967296 = e.inodeNum := by
-  have hflat := dirEndGo_flatten blkCost (ents.length + 1) blk off 0 ents (by omega)
+  have hflat := dirEndGoM_flatten cmp (ents.length + 1) st 0 ents (by omega)
   refine ⟨hflat, ?_⟩
   intro r hr
-  obtain ⟨first, tl, h1, h2, h3, h4, h5⟩ := dirEndGo_runs_ok blkCost _ _ _ _ _ r hr
+  obtain ⟨first, tl, h1, h2, h3, h4, h5⟩ := dirEndGoM_runs_ok cmp _ _ _ _ r hr
   have hsub : ∀ e ∈ r.ents, e ∈ ents := by
     intro e he
     rw [← hflat]
@@ -102,6 +107,92 @@ theorem dir_index_count_exact (dirRef : Nat) (runs : List Run) (n h x p : Nat) :
   split
   · simp only [List.length_map, List.length_take, maxIndex]; omega
   · simp
+
+/--
+"Directory indexes point at headers".  `sqfs_dir_writer_end` + `sqfs_dir_writer_create_inode` on a **real meta
+writer** (any codec, any well-formed state `st` reached from a fresh writer — i.e. any amount of earlier directory
+data, compressed or not), for every entry list: the `k`-th index entry of the extended directory inode is made from
+the `k`-th header `r` (index entries and headers correspond one to one, in order, up to the 65535 the u16 count can
+announce) and
+
+* its `index` field is the number of listing bytes in front of that header (the encoded runs before it), so the
+  listing has a header at exactly that offset;
+* the bytes the meta writer received are the encoded runs, appended to what was there before;
+* its `start_block` field is the on-disk size of exactly the metadata blocks that precede the block holding the
+  header's first byte — the offset, relative to the start of the directory table, at which that block's 2-byte
+  header lies — in the finished table `fin` (any later state of the same writer: blocks flushed earlier never
+  change; this is also the order `sqfs_meta_write_write_to_file` puts them into the file);
+* inside that block the header sits at `(offset field of the inode + index) mod 8192`, which is what a reader
+  computes;
+* its name is the name of the first entry behind that header.
+
+The fields are u32 (`% 2^32`): exact for listings and directory tables below 4 GiB.
+-/
+theorem dir_index_points_at_headers (cmp : MetaWriter.Codec) (st : MetaWriter.St) (hst : MetaWriter.WF cmp st)
+    (ents : List DEnt) (fin : MetaWriter.St) (hfin : MetaWriter.Ext (dirEndM cmp st ents).2 fin)
+    (hl x p k : Nat) (ie : Nat × Nat × Bytes)
+    (hk : (createInode (dirRefOf st) (dirEndM cmp st ents).1 ents.length hl x p).index[k]? = some ie) :
+    ∃ r first tl, (dirEndM cmp st ents).1[k]? = some r ∧ r.ents = first :: tl ∧
+      ie = (r.index % 4294967296, r.block % 4294967296, first.name) ∧
+      r.index = ((((dirEndM cmp st ents).1.take k).map encodeRun).flatten).length ∧
+      MetaWriter.stream (dirEndM cmp st ents).2 = MetaWriter.stream st ++ ((dirEndM cmp st ents).1.map encodeRun).flatten ∧
+      r.block = MetaWriter.outBytes (fin.out.take (((MetaWriter.stream st).length + r.index) / 8192)) ∧
+      ((MetaWriter.stream st).length + r.index) % 8192 = ((dirRefOf st) % 65536 + r.index) % 8192 := by
+  unfold dirEndM at hk hfin ⊢
+  obtain ⟨_, _, p3, p4⟩ := dirEndGoM_pos cmp (ents.length + 1) st 0 ents hst (by omega)
+  -- the index entry comes from run k
+  have hidx : ∃ r, (dirEndGoM cmp (ents.length + 1) st 0 ents).1[k]? = some r ∧
+      ie = (r.index % 4294967296, r.block % 4294967296, match r.ents with | e :: _ => e.name | [] => []) := by
+    unfold createInode createInodeCap at hk
+    simp only at hk
+    split at hk
+    · simp only [List.getElem?_map, List.getElem?_take] at hk
+      split at hk
+      · cases hr : (dirEndGoM cmp (ents.length + 1) st 0 ents).1[k]? with
+        | none => rw [hr] at hk; simp at hk
+        | some r => rw [hr] at hk; simp only [Option.map_some, Option.some.injEq] at hk; exact ⟨r, rfl, hk.symm⟩
+      · simp at hk
+    · simp at hk
+  obtain ⟨r, hr, hie⟩ := hidx
+  obtain ⟨first, tl, q1, _⟩ := dirEndGoM_runs_ok cmp _ _ _ _ r (List.mem_of_getElem? hr)
+  obtain ⟨a1, a2, a3⟩ := p4 k r hr
+  refine ⟨r, first, tl, hr, q1, by rw [hie, q1], by simpa using a1, p3, ?_, ?_⟩
+  · -- blocks flushed by the time `dirEndM` returns are a prefix of `fin.out`
+    obtain ⟨bs, hbs⟩ := hfin
+    rw [a3]
+    simp only [Nat.sub_zero] at a2 ⊢
+    have : metaBlockSize = 8192 := rfl
+    rw [this] at a2 ⊢
+    rw [hbs, List.take_append_of_le_length a2]
+  · have hoff : dirRefOf st % 65536 = st.cur.length := by
+      unfold dirRefOf
+      have hlt : st.cur.length < 2 ^ 16 := by have := hst.curLt; have : metaBlockSize = 8192 := rfl; omega
+      rw [Nat.shiftLeft_eq, Nat.mul_comm, ← Nat.two_pow_add_eq_or_of_lt hlt]
+      omega
+    rw [hoff, hst.offset]
+    have : metaBlockSize = 8192 := rfl
+    rw [this]
+    omega
+
+/--
+Export table (`add_export_table_entry` from every accepted `add_entry`, then the root in
+`sqfs_dir_writer_write_export_table`), for every sequence of `(inode number, inode reference)` pairs in which a
+number always comes with the same reference (`ref`; the serializer passes the node's own `inode_num`/`inode_ref`)
+and no number is 0 (`add_entry` refuses it): the table has exactly as many slots as the largest inode number, slot
+`ino - 1` holds the reference of inode `ino` for every inode that was added, every other slot is the 0xFF… filler.
+With the numbers being exactly 1..N (`inode_numbers_bijective`) there are N slots and no filler.
+-/
+theorem export_table_resolves (ref : Nat → Nat) (adds : List (Nat × Nat)) (rootNum : Nat)
+    (hadds : ∀ a ∈ adds, 1 ≤ a.1 ∧ a.2 = ref a.1) (hroot : 1 ≤ rootNum) :
+    (exportTable adds rootNum (ref rootNum)).length = maxNum (adds ++ [(rootNum, ref rootNum)]) ∧
+    ∀ i, i < (exportTable adds rootNum (ref rootNum)).length →
+      (exportTable adds rootNum (ref rootNum))[i]? =
+        some (if i + 1 ∈ (adds ++ [(rootNum, ref rootNum)]).map (·.1) then ref (i + 1) else exportUnset) := by
+  have h0 : ExportOk ref [] [] := ⟨rfl, by intro i hi; simp at hi⟩
+  have h1 := exportOk_fold ref adds [] [] h0 hadds
+  have h2 := exportOk_step ref _ _ (rootNum, ref rootNum) h1 hroot rfl
+  unfold ExportOk at h2
+  simpa [exportTable] using h2
 
 end Dir
 
@@ -172,49 +263,115 @@ theorem meta_stored_le_unpacked (cmp : Codec) (hc : cmp.Shrinks) (chunks : List 
 The block processor's worker (`process_block`) with the `do_block` contract as hypothesis, for every block that does
 not already carry the internal IS_COMPRESSED flag: the stored size never exceeds the input size; the block is flagged
 compressed iff it is strictly smaller; a block not flagged compressed is stored byte for byte; a block flagged
-compressed is what the codec returned.  The size word built from it has bit 24 (uncompressed) clear exactly in
-that case.
+compressed is what the codec returned.  The size word `process_completed_block` builds from it (for blocks below
+2^24 bytes — the block size limit is 2^20) carries the stored size in its low 24 bits and has bit 24 (uncompressed)
+clear exactly when the block is flagged compressed.
 -/
 theorem data_block_size_rule (cmp : Codec) (hc : cmp.Shrinks) (b : DataBlock)
     (hin : hasFlag b.flags blkIsCompressed = false) :
     (processBlock cmp b).data.length ≤ b.data.length ∧
     (hasFlag (processBlock cmp b).flags blkIsCompressed = true ↔ (processBlock cmp b).data.length < b.data.length) ∧
     (hasFlag (processBlock cmp b).flags blkIsCompressed = false → (processBlock cmp b).data = b.data) ∧
-    (hasFlag (processBlock cmp b).flags blkIsCompressed = true → cmp b.data = some (processBlock cmp b).data) := by
-  unfold processBlock
-  by_cases h1 : b.data = []
-  · rw [if_pos h1]; simp [hin]
-  · rw [if_neg h1]
-    by_cases h2 : (!hasFlag b.flags blkIgnoreSparse && b.data.all (· == 0)) = true
-    · rw [if_pos h2]
-      have hf : hasFlag (b.flags ||| blkIsSparse) blkIsCompressed = false := by
-        unfold hasFlag at hin ⊢
-        rw [Nat.and_or_distrib_right]
-        have : blkIsSparse &&& blkIsCompressed = 0 := by decide
-        rw [this, Nat.or_zero]; exact hin
-      simp only [hf]; simp
-    · rw [if_neg h2]
-      by_cases h3 : hasFlag b.flags (blkIsFragment ||| blkDontCompress) = true
-      · rw [if_pos h3]; simp [hin]
-      · rw [if_neg h3]
-        cases hcmp : cmp b.data with
-        | none => simp [hin]
-        | some c =>
-          simp only
-          by_cases h4 : c.length > 0
-          · rw [if_pos h4]
-            have hf : hasFlag (b.flags ||| blkIsCompressed) blkIsCompressed = true := by
-              unfold hasFlag
-              rw [Nat.and_or_distrib_right, Nat.and_self]
-              have : blkIsCompressed = 32768 := rfl
-              simp only [this, bne_iff_ne, ne_eq]
-              intro h
-              have := Nat.or_eq_zero_iff.mp h
-              omega
-            have hlt := hc _ _ hcmp
-            simp only [hf]
-            exact ⟨Nat.le_of_lt hlt, by simp [hlt], by simp, by simp⟩
-          · rw [if_neg h4]; simp [hin]
+    (hasFlag (processBlock cmp b).flags blkIsCompressed = true → cmp b.data = some (processBlock cmp b).data) ∧
+    (b.data.length < 16777216 →
+      sizeWord (processBlock cmp b) % 16777216 = (processBlock cmp b).data.length ∧
+      (sizeWord (processBlock cmp b) / 16777216 = 0 ↔ hasFlag (processBlock cmp b).flags blkIsCompressed = true)) := by
+  have hword : ∀ (r : DataBlock), r.data.length ≤ b.data.length → b.data.length < 16777216 →
+      sizeWord r % 16777216 = r.data.length ∧ (sizeWord r / 16777216 = 0 ↔ hasFlag r.flags blkIsCompressed = true) := by
+    intro r hr hb
+    unfold sizeWord
+    cases hf : hasFlag r.flags blkIsCompressed with
+    | true => simp only [if_true]; refine ⟨by omega, by simp; omega⟩
+    | false =>
+      simp only [Bool.false_eq_true, if_false]
+      have hor : r.data.length ||| 1 <<< 24 = 16777216 + r.data.length := by
+        have h : 2 ^ 24 * 1 + r.data.length = 2 ^ 24 * 1 ||| r.data.length :=
+          Nat.two_pow_add_eq_or_of_lt (i := 24) (by omega) 1
+        rw [Nat.or_comm, Nat.shiftLeft_eq, Nat.one_mul]
+        rw [Nat.mul_one] at h
+        exact h.symm
+      rw [hor]
+      refine ⟨by omega, by simp⟩
+  have main : (processBlock cmp b).data.length ≤ b.data.length ∧
+      (hasFlag (processBlock cmp b).flags blkIsCompressed = true ↔ (processBlock cmp b).data.length < b.data.length) ∧
+      (hasFlag (processBlock cmp b).flags blkIsCompressed = false → (processBlock cmp b).data = b.data) ∧
+      (hasFlag (processBlock cmp b).flags blkIsCompressed = true → cmp b.data = some (processBlock cmp b).data) := by
+    unfold processBlock
+    by_cases h1 : b.data = []
+    · rw [if_pos h1]; simp [hin]
+    · rw [if_neg h1]
+      by_cases h2 : (!hasFlag b.flags (blkIgnoreSparse ||| blkFragmentBlock) && b.data.all (· == 0)) = true
+      · rw [if_pos h2]
+        have hf : hasFlag (b.flags ||| blkIsSparse) blkIsCompressed = false := by
+          unfold hasFlag at hin ⊢
+          rw [Nat.and_or_distrib_right]
+          have : blkIsSparse &&& blkIsCompressed = 0 := by decide
+          rw [this, Nat.or_zero]; exact hin
+        simp only [hf]; simp
+      · rw [if_neg h2]
+        by_cases h3 : hasFlag b.flags (blkIsFragment ||| blkDontCompress) = true
+        · rw [if_pos h3]; simp [hin]
+        · rw [if_neg h3]
+          cases hcmp : cmp b.data with
+          | none => simp [hin]
+          | some c =>
+            simp only
+            by_cases h4 : c.length > 0
+            · rw [if_pos h4]
+              have hf : hasFlag (b.flags ||| blkIsCompressed) blkIsCompressed = true := by
+                unfold hasFlag
+                rw [Nat.and_or_distrib_right, Nat.and_self]
+                have : blkIsCompressed = 32768 := rfl
+                simp only [this, bne_iff_ne, ne_eq]
+                intro h
+                have := Nat.or_eq_zero_iff.mp h
+                omega
+              have hlt := hc _ _ hcmp
+              simp only [hf]
+              exact ⟨Nat.le_of_lt hlt, by simp [hlt], by simp, by simp⟩
+            · rw [if_neg h4]; simp [hin]
+  exact ⟨main.1, main.2.1, main.2.2.1, main.2.2.2, fun hb => hword _ main.1 hb⟩
+
+/--
+`sqfs_write_table` (id, fragment and export table), for every codec, every table and every file size `base` at
+which it is called: the location list has one u64 per metadata block and there are `ceil(size / 8192)` of them;
+location `i` is the file offset of the 2-byte header of block `i` (`base` plus everything blocks `0..i-1` occupy);
+`*start`, which the superblock records, is the offset directly behind the last block, where the list is written;
+the blocks unpack to the table, and all but the last hold exactly 8192 bytes, so entry `k` of a table of `e`-byte
+entries (`e` divides 8192) is found in block `k·e / 8192` at offset `k·e mod 8192`.
+-/
+theorem write_table_locations (cmp : Codec) (base : Nat) (data : Bytes) :
+    (writeTableM cmp base data).locs.length = (writeTableM cmp base data).blocks.length ∧
+    (writeTableM cmp base data).blocks.length = (data.length + 8191) / 8192 ∧
+    (∀ i, i < (writeTableM cmp base data).locs.length →
+      (writeTableM cmp base data).locs[i]? = some (base + outBytes ((writeTableM cmp base data).blocks.take i))) ∧
+    (writeTableM cmp base data).start = base + outBytes (writeTableM cmp base data).blocks ∧
+    (((writeTableM cmp base data).blocks.map (·.raw)).flatten = data) ∧
+    (∀ i, i + 1 < (writeTableM cmp base data).blocks.length →
+      ((writeTableM cmp base data).blocks[i]?.map (·.raw.length)) = some 8192) :=
+  writeTableM_spec cmp base data
+
+/--
+A meta writer created with `SQFS_META_WRITER_KEEP_IN_MEMORY` (the directory table): nothing reaches the file before
+`sqfs_meta_write_write_to_file`; afterwards the file holds exactly the blocks, in order, that the same appends give
+on a writer without the flag (so block offsets reported by `get_position` while the data was still in memory are
+the offsets the blocks end up at, relative to where the table starts), and the in-memory list is empty.
+-/
+theorem keep_in_memory_same_blocks (cmp : Codec) (chunks : List Bytes) :
+    ((chunks.foldl (Keep.append cmp) {}).flush cmp).file = [] ∧
+    ((chunks.foldl (Keep.append cmp) {}).flush cmp).writeToFile.file = (run cmp chunks).out ∧
+    ((chunks.foldl (Keep.append cmp) {}).flush cmp).writeToFile.st.out = [] ∧
+    (chunks.foldl (Keep.append cmp) {}).st = chunks.foldl (append cmp) {} := by
+  have h : ∀ (cs : List Bytes) (k : Keep), (cs.foldl (Keep.append cmp) k).st = cs.foldl (append cmp) k.st ∧
+      (cs.foldl (Keep.append cmp) k).file = k.file := by
+    intro cs
+    induction cs with
+    | nil => intro k; exact ⟨rfl, rfl⟩
+    | cons c cs ih => intro k; simp only [List.foldl_cons]; exact ih (Keep.append cmp k c)
+  obtain ⟨h1, h2⟩ := h chunks {}
+  refine ⟨by simp [Keep.flush, h2], ?_, rfl, h1⟩
+  simp only [Keep.writeToFile, Keep.flush, h2, h1, run]
+  simp
 
 end Meta
 
@@ -293,6 +450,35 @@ theorem inode_numbers_bijective (cs : List Tree) :
     (numsT (numberRoot cs).1).Perm (List.range' 1 (numberRoot cs).2) ∧ eraseT (numberRoot cs).1 = .dir cs :=
   ⟨numberRoot_perm cs, numberRoot_shape cs⟩
 
+/--
+`fstree_post_process` as a whole — `alloc_inode_num_dfs`, the root, `map_inodes_dfs`, then `reorder_hard_links`
+(which rotates the target of a hard link in front of the first directory that links it, renumbering everything in
+between) — for every tree with any hard links between its non-directory nodes: slot `k` of `fs->inodes`, the order
+in which the inodes are serialised, carries inode number `k + 1`; the slots hold exactly the nodes the DFS numbered,
+each once.  So also with hard links the inode numbers are exactly `1..N` for the `N` inodes the superblock announces,
+no number is used twice, and inodes appear in the inode table in the order of their numbers.
+-/
+theorem inode_numbers_dense_after_reorder (cs : List Tree) :
+    (postProcess cs).map (·.num) = List.range' 1 (numberRoot cs).2 ∧
+    ((postProcess cs).map (·.id)).Perm (numsT (numberRoot cs).1) ∧
+    (numsT (numberRoot cs).1).Perm (List.range' 1 (numberRoot cs).2) :=
+  ⟨(postProcess_spec cs).1, (postProcess_spec cs).2, numberRoot_perm cs⟩
+
+/--
+The order in which inodes are serialised makes every `inode_ref` a listing stores known when the listing is written:
+for every tree whose hard links name existing non-directory nodes (`resolve_link` refuses anything else), in the final
+order of `fs->inodes` (`Before`: sits in an earlier slot)
+* every node the DFS numbered below a directory — in particular everything inside it (`children_before_parent`) —
+  still comes before that directory (`reorder_hard_links` never moves a directory and never moves anything behind one
+  that was in front of it), and
+* every directory comes after the target of each of its hard-link entries.
+-/
+theorem link_targets_before_linking_dirs (cs : List Tree)
+    (hv : ValidT (filesT (numberRoot cs).1).length (numberRoot cs).1) :
+    (∀ a b, 1 ≤ a → a < b → b ∈ dirNumsT (numberRoot cs).1 → Before (postProcess cs) a b) ∧
+    (∀ d ∈ dirsT (filesT (numberRoot cs).1) (numberRoot cs).1, ∀ x ∈ d.2, Before (postProcess cs) x d.1) :=
+  postProcess_order cs hv
+
 /-- every directory's number is larger than every number inside its subtree (children are serialised, and their
 inode references known, before the parent's listing is written) -/
 theorem children_before_parent (cs : List Tree) : OrdT (numberRoot cs).1 :=
@@ -300,13 +486,77 @@ theorem children_before_parent (cs : List Tree) : OrdT (numberRoot cs).1 :=
 
 end Num
 
+/-! ## directory listings are strictly sorted (`insert_sorted` / `child_by_name` of fstree.c) -/
+section Sorted
+open Sqfs.C03FsDir
+
+/--
+For every sequence of names handed to `fstree_add_generic` for entries of one directory (in any order, with
+repetitions): the directory's children list — the order in which `write_dir_entries` passes them to the dir writer,
+which `dir_end_headers_ok` shows to be the order of the listing — is **strictly** sorted by `strcmp` (bytes as
+`unsigned char`), hence free of duplicates; it contains only names that were added and, unless the 2^32-1 link count
+limit refused one, all of them; and the directory's link count is 2 + the number of entries.
+-/
+theorem listing_strictly_sorted (names : List C03FsDir.Bytes) :
+    (addAll {} names).children.Pairwise (fun a b => strLt a b = true) ∧
+    (addAll {} names).children.Nodup ∧
+    (∀ x, x ∈ (addAll {} names).children → x ∈ names) ∧
+    ((addAll {} names).linkCount < 0xFFFFFFFF → ∀ x, x ∈ names → x ∈ (addAll {} names).children) ∧
+    (addAll {} names).linkCount = 2 + (addAll {} names).children.length := by
+  obtain ⟨g, h2, h3, _⟩ := addAll_good names {} good_init
+  refine ⟨g.sorted, ?_, ?_, ?_, g.links⟩
+  · exact g.sorted.imp (fun {a b} hab => by
+      intro he; subst he; rw [strLt_irrefl] at hab; exact absurd hab (by simp))
+  · intro x hx
+    rcases h2 x hx with h | h
+    · simp at h
+    · exact h
+  · intro hlt x hx
+    exact h3 hlt x (Or.inr hx)
+
+end Sorted
+
+/-! ## basic / extended file inodes (`inode.c`) -/
+section Inode
+open Sqfs.C03Inode
+
+/--
+The thresholds of `sqfs_inode_make_basic` / `sqfs_inode_set_file_size` / `sqfs_inode_set_file_block_start` /
+`sqfs_inode_set_xattr_index` and the sparse accounting of `process_completed_block`, for **every** sequence of these
+operations on a file inode starting from a fresh one, with arguments of any size the C types admit: each operation
+changes exactly the value it is meant to change, as a reader of the written inode sees it (`view`: a basic inode means
+sparse 0, one link, no xattr) — no value is ever narrowed by the switch to the basic, all-u32 layout (a size or start of
+4 GiB or more, a sparse count, an xattr index keep the inode extended).
+-/
+theorem file_inode_values_exact (i : FileInode) (h : WF i) (size loc idx off x n : Nat) :
+    (WF (setFileSize i size) ∧ view (setFileSize i size) = ((view i).1, size, (view i).2.2)) ∧
+    (WF (setBlockStart i loc) ∧ view (setBlockStart i loc) = (loc, (view i).2)) ∧
+    (WF (setFragLocation i idx off) ∧ view (setFragLocation i idx off) =
+      ((view i).1, (view i).2.1, (view i).2.2.1, (view i).2.2.2.1, idx, off, (view i).2.2.2.2.2.2)) ∧
+    (WF (setXattr i x) ∧ view (setXattr i x) =
+      ((view i).1, (view i).2.1, (view i).2.2.1, (view i).2.2.2.1, (view i).2.2.2.2.1, (view i).2.2.2.2.2.1, x)) ∧
+    (WF (addSparse i n) ∧ view (addSparse i n) =
+      ((view i).1, (view i).2.1, ((view i).2.2.1 + n) % 18446744073709551616, (view i).2.2.2)) ∧
+    (WF (makeBasic i) ∧ view (makeBasic i) = view i) ∧ (WF (makeExtended i) ∧ view (makeExtended i) = view i) :=
+  ⟨setFileSize_spec i size h, setBlockStart_spec i loc h, setFragLocation_spec i idx off h, setXattr_spec i x h,
+   addSparse_spec i n h, makeBasic_spec i h, makeExtended_spec i h⟩
+
+end Inode
+
 /-! ## non-vacuity: the hypotheses above are satisfiable by non-trivial instances -/
 section Examples
 open Sqfs.DirWriter Sqfs.MetaWriter Sqfs.IdTable
 
-/-- two entries in one inode block, then one in another block → two headers (2 + 1) -/
-example : (dirEnd 8194 0 0 [⟨0x10020, 5, 2, [97]⟩, ⟨0x10040, 6, 2, [98]⟩, ⟨0x20000, 7, 2, [99]⟩]).map (·.ents.length) = [2, 1] := by
+/-- a codec that never shrinks anything -/
+def toyCodec0 : Codec := fun _ => none
+
+/-- two entries in one inode block, then one in another block → two headers (2 + 1), indexed at listing offsets 0 and 30 -/
+example : (dirEndM (fun _ => none) {} [⟨0x10020, 5, 2, [97]⟩, ⟨0x10040, 6, 2, [98]⟩, ⟨0x20000, 7, 2, [99]⟩]).1.map
+    (fun r => (r.ents.length, r.index, r.block)) = [(2, 0, 0), (1, 30, 0)] := by
   decide
+
+/-- a fresh meta writer is well formed, and so is one that already holds data -/
+example : WF toyCodec0 {} := wf_init _
 
 /-- an inode-number jump of more than 32767 splits the run -/
 example : conseqCount 0 [⟨0, 1, 2, [97]⟩, ⟨32, 40000, 2, [98]⟩] = 1 := by decide
@@ -327,10 +577,41 @@ example : (run toyCodec [[1, 2, 3, 4, 5]]).out = [⟨true, [1, 2, 3, 4], [1, 2, 
 
 example : processBlock toyCodec ⟨0, [1, 2, 3, 4, 5]⟩ = ⟨32768, [1, 2, 3, 4]⟩ := by decide
 
-example : addAll limit [] [1000, 0, 1000, 7] = some ([1000, 0, 7], [0, 1, 0, 2]) := by decide
+example : IdTable.addAll limit [] [1000, 0, 1000, 7] = some ([1000, 0, 7], [0, 1, 0, 2]) := by decide
 
-example : Sqfs.Numbering.numberRoot [.file, .dir [.file, .hlink, .dir [.file]], .file] =
-    (.dir 7 [.file 4, .dir 5 [.file 2, .hlink, .dir 3 [.file 1]], .file 6], 7) := by rfl
+/-- a fragment block of zero bytes is not sparse (block_processor.c:21-22), a plain block is -/
+example : processBlock toyCodec ⟨blkFragmentBlock, [0, 0, 0]⟩ = ⟨blkFragmentBlock, [0, 0, 0]⟩ ∧
+    processBlock toyCodec ⟨0, [0, 0, 0]⟩ = ⟨blkIsSparse, [0, 0, 0]⟩ := by decide
+
+/-- export table: inodes 1 and 3 added, root = 4 → four slots, slot 1 (inode 2) is the filler -/
+example : exportTable [(3, 0x20040), (1, 0x20), (3, 0x20040)] 4 0x30000 = [0x20, exportUnset, 0x20040, 0x30000] := by decide
+
+/-- names arrive unsorted, one twice: sorted, unique, link count 2 + 3 -/
+example : C03FsDir.addAll {} [[98], [97, 0xC3], [97], [98]] = ⟨[[97], [97, 0xC3], [98]], 5⟩ := by decide
+
+/-- a fresh inode is well formed; 4 GiB does not fit the basic inode, 4 GiB - 2 does -/
+example : C03Inode.WF C03Inode.fresh ∧
+    C03Inode.setFileSize C03Inode.fresh 4294967296 = .ext 0 4294967296 0 1 0 0 0xFFFFFFFF ∧
+    C03Inode.setFileSize (.ext 0 4294967296 0 1 0 0 0xFFFFFFFF) 4294967294 = .basic 0 0 0 4294967294 :=
+  ⟨C03Inode.wf_fresh, by decide, by decide⟩
+
+/-- a 5-byte table at file offset 100: one block of 5 + 2 bytes, its location 100, the list starts at 107 -/
+example : (writeTableM toyCodec 100 [1, 2, 3, 4, 5]).locs = [100] ∧ (writeTableM toyCodec 100 [1, 2, 3, 4, 5]).start = 106 := by
+  decide
+
+example : Sqfs.Numbering.numberRoot [.file, .dir [.file, .hlink 0, .dir [.file]], .file] =
+    (.dir 7 [.file 4, .dir 5 [.file 2, .hlink 0, .dir 3 [.file 1]], .file 6], 7) := by rfl
+
+/-- its link is valid (file 1 exists), so `link_targets_before_linking_dirs` applies -/
+example : Sqfs.Numbering.ValidT (Sqfs.Numbering.filesT (Sqfs.Numbering.numberRoot [.dir [.hlink 1], .dir [.file], .file]).1).length
+    (Sqfs.Numbering.numberRoot [.dir [.hlink 1], .dir [.file], .file]).1 := by
+  simp [Sqfs.Numbering.numberRoot, Sqfs.Numbering.allocL, Sqfs.Numbering.allocT, Sqfs.Numbering.step2, Sqfs.Numbering.filesT,
+    Sqfs.Numbering.filesL, Sqfs.Numbering.ValidT, Sqfs.Numbering.ValidL]
+
+/-- the DFS numbers the first directory 2 and the file it links 4: the file is rotated in front of the directory
+(slot order 1,4,2,3,5) and everything gets the number of its slot -/
+example : Sqfs.Numbering.postProcess [.dir [.hlink 1], .dir [.file], .file] =
+    [⟨1, 1⟩, ⟨4, 2⟩, ⟨2, 3⟩, ⟨3, 4⟩, ⟨5, 5⟩] := by decide
 
 /-- the layout of the first image of the design notes (gzip, 5 inodes, one fragment, one id) -/
 example : Sqfs.Finish.finish ⟨512455, 93, 55, some ⟨18, 1⟩, none, ⟨6, 1⟩, none, 4096⟩ =
